@@ -48,6 +48,30 @@ Proof.
   intros Hd [i [Ht Hc]]. unfold stored_column. rewrite (find_index_spec thr t Hd i t Ht (Qeq_refl t)). exact Hc.
 Qed.
 
+(* the pairs an input stores, as a list; reordering the input's columns (thresholds and their arrays together) changes nothing *)
+Lemma stores_In thr cols t c : stores thr cols t c <-> In (t, c) (combine thr cols).
+Proof.
+  unfold stores. revert cols. induction thr as [|x r IH]; intros cols.
+  - split; [intros [i [Hi _]]; destruct i; discriminate | intros []].
+  - destruct cols as [|y cs].
+    + split; [intros [i [_ Hc]]; destruct i; discriminate | intros []].
+    + cbn [combine In]. split.
+      * intros [[|i] [Ht Hc]]; cbn in Ht, Hc.
+        -- left. congruence.
+        -- right. apply IH. exists i. split; assumption.
+      * intros [E | Hin].
+        -- injection E as <- <-. exists 0%nat. split; reflexivity.
+        -- apply IH in Hin. destruct Hin as [i [Ht Hc]]. exists (S i). split; assumption.
+Qed.
+
+Theorem stored_column_order_free thr cols thr' cols' t c :
+  distinct thr -> distinct thr' -> Permutation (combine thr cols) (combine thr' cols') ->
+  stores thr cols t c -> stored_column A thr cols t = Some c /\ stored_column A thr' cols' t = Some c.
+Proof.
+  intros Hd Hd' Hp Hs. split; [apply stored_column_by_value; assumption|].
+  apply stored_column_by_value; [exact Hd'|]. apply stores_In. apply (Permutation_in _ Hp). apply stores_In. exact Hs.
+Qed.
+
 (* a threshold the input does not store is not found (the field then comes from the ensemble, or the run stops) *)
 Theorem absent_threshold_not_found thr cols t : (forall x, In x thr -> ~ x == t) -> stored_column A thr cols t = None.
 Proof.
